@@ -725,12 +725,14 @@ func order(log []event, kinds [2]int, universe map[int]string) []int {
 }
 
 type result struct {
-	hist   History // with Os/Oc filled in
-	obs    [][][]int
-	calls  int
-	oracle string
-	fails  []Fail // the first objection of every kind
-	inj    bool   // some fault was injected
+	hist  History // with Os/Oc filled in
+	obs   [][][]int
+	calls int
+	// call positions (global RPC indexes) made by each sync step of the run
+	syncCalls [][]int
+	oracle    string
+	fails     []Fail // the first objection of every kind
+	inj       bool   // some fault was injected
 }
 
 func sigKey(sig map[string]interface{}) string {
@@ -782,6 +784,7 @@ func run(h History, faults []int) result {
 		}
 		pre, preCat := w.snap(), w.cat()
 		logStart := len(w.d.log)
+		posStart := w.d.pos
 		var rc int
 		var pmsg string
 		switch st.Op {
@@ -872,6 +875,11 @@ func run(h History, faults []int) result {
 		}
 		log := w.d.log[logStart:]
 		if st.Op == "syncchanges" || st.Op == "syncfull" {
+			var ps []int
+			for p := posStart; p < w.d.pos; p++ {
+				ps = append(ps, p)
+			}
+			res.syncCalls = append(res.syncCalls, ps)
 			st.Os = order(log, [2]int{kSyncSvc, kDelSvc}, svcIDs)
 			st.Oc = order(log, [2]int{kSyncChk, kDelChk}, chkIDs)
 		}
@@ -1896,6 +1904,47 @@ func main() {
 				faults := make([]int, n+1)
 				faults[n] = k
 				emit(fmt.Sprintf("%s/fault%d", kind, k), h, faults, (n+k+hi)%coqFaultStride == 0)
+			}
+		}
+		// EVERY fault sequence over {ok, error, denied, ACL not found} on up to n call positions spread
+		// over the LAST TWO sync steps of the history (fail in one sync, refusal in the next, ...)
+		nMulti, every := 3, 10
+		if pairs {
+			nMulti, every = 4, 4
+		}
+		if hi%every == 0 && len(base.syncCalls) > 0 {
+			var pos []int
+			from := len(base.syncCalls) - 2
+			if from < 0 {
+				from = 0
+			}
+			for _, ps := range base.syncCalls[from:] {
+				pos = append(pos, ps...)
+			}
+			if len(pos) > nMulti { // spread the chosen positions over both steps
+				sel := make([]int, nMulti)
+				for i := range sel {
+					sel[i] = pos[i*(len(pos)-1)/(nMulti-1)]
+				}
+				pos = sel
+			}
+			total := 1
+			for range pos {
+				total *= 4
+			}
+			for code := 1; code < total; code++ {
+				nz := 0
+				faults := make([]int, pos[len(pos)-1]+1)
+				for i, c := 0, code; i < len(pos); i, c = i+1, c/4 {
+					faults[pos[i]] = c % 4
+					if c%4 != 0 {
+						nz++
+					}
+				}
+				if nz < 2 {
+					continue // single faults are enumerated above
+				}
+				emit(kind+"/multi", h, faults, code%8 == 0)
 			}
 		}
 		if pairs && base.calls >= 2 {
